@@ -16,6 +16,9 @@ import (
 func repoFns(p *core.Program, rels ...string) []*ssa.Function {
 	want := map[string]bool{}
 	for _, r := range rels {
+		if r == "" {
+			r = "."
+		}
 		want[r] = true
 	}
 	var fns []*ssa.Function
